@@ -62,6 +62,9 @@ def run(ctx):
     batch_rule(ctx)
     registration_rule(ctx)
     profile_rule(ctx)
+    from . import c09
+    c01.run(dep(ctx, "C13", "C01"))
+    c09.run(dep(ctx, "C13", "C09"))
     tab = (ctx.prog.consts.get(c01.TABLE) or {}).get("bytes")
     if tab is not None:
         bad = [b for b in range(128, 256) if tab[b] != 4]
